@@ -62,11 +62,17 @@ pub struct Cfg {
     /// results are not judged; caller 0 must still get the reference outcome)
     #[serde(default)]
     pub callers_other: bool,
+    /// in-place mutation history: the operation first runs on a copy of the input with every
+    /// ring reversed, then that copy's coordinates are overwritten IN PLACE (same buffers, same
+    /// addresses, same lengths and bounding boxes) with the real input, and the call under test
+    /// runs on it - what a cache keyed by address / length / extent would get wrong
+    #[serde(default)]
+    pub inplace: bool,
 }
 
 impl Cfg {
     pub fn reference() -> Cfg {
-        Cfg { workers: 1, strategy: "sequential".into(), sched_seed: 0, hash_seed: 0, addr_seed: None, prefix: vec![], from_worker: false, decisions: None, repeat: false, callers: 1, callers_other: false }
+        Cfg { workers: 1, strategy: "sequential".into(), sched_seed: 0, hash_seed: 0, addr_seed: None, prefix: vec![], from_worker: false, decisions: None, repeat: false, callers: 1, callers_other: false, inplace: false }
     }
 }
 
@@ -155,6 +161,8 @@ pub fn run_one(sc: &Scenario, op: &'static OpDef, input: &Input, prefix_inputs: 
     };
     let from_worker = cfg.from_worker;
     let repeat = cfg.repeat;
+    // (the reversed copy is an unscreened input: not for the operations that can run away, nor under a forced Frag)
+    let inplace = cfg.inplace && sc.knobs.strategy != 4 && sc.input.size <= 10_000 && !matches!(sc.op.as_str(), "sweep_intersections" | "sweep_intersections_refs" | "interior_point" | "monotone_subdivision" | "misc_per_type" | "collection_ops");
     let callers = cfg.callers.max(1);
     // (never for the operations that can run away on unscreened inputs, nor under a forced Frag)
     let other_ok = cfg.callers_other && sc.knobs.strategy != 4 && sc.input.size <= 10_000 && !matches!(sc.op.as_str(), "sweep_intersections" | "sweep_intersections_refs" | "interior_point" | "monotone_subdivision" | "misc_per_type" | "collection_ops");
@@ -183,6 +191,14 @@ pub fn run_one(sc: &Scenario, op: &'static OpDef, input: &Input, prefix_inputs: 
                 if repeat {
                     let _ = std::panic::catch_unwind(std::panic::AssertUnwindSafe(|| exec(op, input)));
                     *PANIC_AT.lock().unwrap_or_else(|p| p.into_inner()) = None;
+                }
+                if inplace {
+                    let mut scratch = inputs::reversed(input);
+                    let _ = std::panic::catch_unwind(std::panic::AssertUnwindSafe(|| exec(op, &scratch)));
+                    *PANIC_AT.lock().unwrap_or_else(|p| p.into_inner()) = None;
+                    if inputs::overwrite_in_place(&mut scratch, input) {
+                        return exec(op, &scratch);
+                    }
                 }
                 exec(op, input)
             };
@@ -398,6 +414,7 @@ pub fn gen_cfg(seed: u64, v: u64) -> Cfg {
         repeat: rng.chance(1, 6),
         callers: if rng.chance(1, 6) { 2 + rng.below(2) } else { 1 },
         callers_other: rng.chance(1, 2),
+        inplace: rng.chance(1, 6),
     }
 }
 
@@ -519,6 +536,7 @@ fn minimise(sc: &Scenario, cfg: &Cfg) -> Option<Minimised> {
     try_reset("repeat", &|c| c.repeat = false, &mut cfg);
     try_reset("callers", &|c| c.callers = 1, &mut cfg);
     try_reset("callers_other", &|c| c.callers_other = false, &mut cfg);
+    try_reset("inplace", &|c| c.inplace = false, &mut cfg);
     try_reset("addr", &|c| c.addr_seed = None, &mut cfg);
     try_reset("hash", &|c| c.hash_seed = 0, &mut cfg);
     try_reset(
@@ -547,6 +565,9 @@ fn minimise(sc: &Scenario, cfg: &Cfg) -> Option<Minimised> {
     }
     if cfg.callers > 1 {
         needed.push("callers");
+    }
+    if cfg.inplace {
+        needed.push("inplace-history");
     }
     if cfg.addr_seed.is_some() {
         needed.push("addr");
@@ -716,6 +737,9 @@ fn account(t: &mut Tot, sc: &Scenario, cfg: &Cfg, info: &RunInfo) {
     if cfg.repeat {
         t.add("runs_with_repeat", 1);
     }
+    if cfg.inplace {
+        t.add("runs_with_inplace_mutation_history", 1);
+    }
     if cfg.callers > 1 {
         t.add("runs_with_concurrent_callers", 1);
         if cfg.callers_other {
@@ -771,6 +795,8 @@ pub fn run(a: &Args) -> i32 {
     let mut evaluations = 0u64;
     let mut scenarios = 0u64;
     let mut recheck = (0u64, 0u64);
+    let mut effort_mismatches = 0u64;
+    let mut effort_samples: Vec<Value> = Vec::new();
     let mut hazards: Vec<Value> = Vec::new();
     let refcfg = Cfg::reference();
 
@@ -917,8 +943,16 @@ pub fn run(a: &Args) -> i32 {
                     break;
                 }
                 if info2.report.log_hash() != info.report.log_hash() || info2.key_draws != info.key_draws || info2.alloc.shuffled_choices != info.alloc.shuffled_choices {
-                    eprintln!("SIM-ERROR: simulator nondeterministic: run {} variant {} scenario {:?} config {:?}", r, v, sc, cfg);
-                    std::process::exit(2);
+                    // same outcome, different *effort* (decisions, key draws, allocations): on the
+                    // unchanged tree this has never happened (selftest/determinism.sh proves the
+                    // simulator deterministic); code under test that keeps state between calls (a
+                    // memo, a warmed cache) legitimately changes its effort, which C20 does not
+                    // forbid - so this is counted and reported, not an error and not a violation
+                    effort_mismatches += 1;
+                    if effort_samples.len() < 2 {
+                        effort_samples.push(json!({"run": r, "variant": v, "scenario": sc, "decisions": [info.report.stats.steps, info2.report.stats.steps],
+                            "key_draws": [info.key_draws, info2.key_draws], "shuffled_allocations": [info.alloc.shuffled_choices, info2.alloc.shuffled_choices]}));
+                    }
                 }
             }
             if got != reference {
@@ -986,6 +1020,7 @@ pub fn run(a: &Args) -> i32 {
         "distinct_decision_logs_in_shard": loghashes.len(),
         "samples": samples, "violations": violations,
         "determinism_reruns": recheck.0, "determinism_mismatches": recheck.1,
+        "rerun_effort_mismatches": effort_mismatches, "rerun_effort_samples": effort_samples,
         "cross_digests": cross_digests, "hazard_samples": hazards,
         "wall_ms": t0.elapsed().as_millis() as u64,
     });
